@@ -439,6 +439,14 @@ def findBadF : List FEvent → Option (FEvent × Nat)
     | some x => some x
     | none => if fEventOk e older then none else some (e, retriesSince e.key older)
 
+/-- first event the budget monitor refuses (index, event) -/
+def findBadP (A : Int) : AMap Nat → Nat → List PEvent → Option (Nat × PEvent)
+  | _, _, [] => none
+  | b, i, e :: es =>
+    match pmon A b e with
+    | none => some (i, e)
+    | some b' => findBadP A b' (i + 1) es
+
 def judgeFinish (s : JudgeSt) : String :=
   match s.bad with
   | some b => s!"fail - {b}"
@@ -455,7 +463,14 @@ def judgeFinish (s : JudgeSt) : String :=
       | some cfg =>
         let h := s.pev.reverse
         if pholds cfg.attempts h then "ok"
-        else s!"fail - policy-budget-violated attempts={cfg.attempts} events={h.length}"
+        else
+          match findBadP cfg.attempts [] 0 h with
+          | some (i, e) =>
+            let what := match e.out with
+              | .noop => "first-response-of-a-sequence-refused-its-retries"
+              | .retry _ => if e.inRange then "retry-asked-beyond-the-budget" else "retry-asked-outside-the-conditions"
+            s!"fail - policy-budget-violated {what} attempts={cfg.attempts} seq={pctEnc e.seq} first={b2s e.first} event={i}/{h.length}"
+          | none => s!"fail - policy-budget-violated attempts={cfg.attempts} events={h.length}"
 
 def main (args : List String) : IO Unit :=
   match args with
